@@ -706,8 +706,9 @@ func TestVerifC05(t *testing.T) {
 			{N: 2, Full: true, Perms: true, Rounds: []int32{0, 1}, Points: all},
 			{N: 3, Full: true, Perms: true, Rounds: []int32{0, 1}, Points: all},
 			{N: 4, Full: true, Rounds: []int32{0, 1}, Points: all},
-			{N: 5, Full: true, Rounds: []int32{0}, Points: cheap},
-			{N: 5, Rounds: []int32{0, 1}, Points: all},
+			{N: 5, Full: true, Rounds: []int32{0}, Points: all},
+			{N: 6, Full: true, Rounds: []int32{0}, Points: cheap},
+			{N: 5, Rounds: []int32{1}, Points: all},
 			{N: 6, Rounds: []int32{0, 1}, Points: all},
 			{N: 7, Rounds: []int32{0, 1}, Points: all},
 		}
